@@ -309,3 +309,91 @@ macro_rules! three_files_middle_lacks {
 three_files_middle_lacks!(c36_three_files_middle_lacks_and_class, 0xc0000002, 0);
 three_files_middle_lacks!(c36_three_files_middle_lacks_or_class, 0xc0008002, 1);
 three_files_middle_lacks!(c36_three_files_middle_lacks_or_and_class, 0xc0010002, 2);
+
+// ---- EVERY classified 32-bit property type (symbolic), fixed shapes ----
+fn class_code(t: u32) -> u8 {
+    match get_property_class(t) {
+        Some(PropertyClass::And) => 0,
+        Some(PropertyClass::Or) => 1,
+        Some(PropertyClass::AndOr) => 2,
+        None => 3,
+    }
+}
+
+#[kani::proof]
+#[kani::unwind(5)]
+fn c36_two_files_both_carry_any_classified_type() {
+    let t: u32 = kani::any();
+    let c = class_code(t);
+    kani::assume(c < 3);
+    let d0: u32 = kani::any();
+    let d1: u32 = kani::any();
+    let out = two_files(&[(t, d0)], &[(t, d1)]);
+    check_single(&out, t, expect_two(c, Some(d0), Some(d1), d0 & d1, d0 | d1));
+}
+
+#[kani::proof]
+#[kani::unwind(5)]
+fn c36_two_files_duplicate_and_noteless_any_classified_type() {
+    let t: u32 = kani::any();
+    let c = class_code(t);
+    kani::assume(c < 3);
+    let d0: u32 = kani::any();
+    let d1: u32 = kani::any();
+    let out = two_files(&[(t, d0), (t, d1)], &[]);
+    check_single(&out, t, expect_two(c, Some(d0), None, d0 & d1, d0 | d1));
+}
+
+#[kani::proof]
+#[kani::unwind(5)]
+fn c36_two_files_one_carries_any_classified_type() {
+    let t: u32 = kani::any();
+    let c = class_code(t);
+    kani::assume(c < 3);
+    let d0: u32 = kani::any();
+    let first: bool = kani::any();
+    let out = if first { two_files(&[(t, d0)], &[]) } else { two_files(&[], &[(t, d0)]) };
+    check_single(&out, t, expect_two(c, Some(d0), None, d0, d0));
+}
+
+#[kani::proof]
+#[kani::unwind(5)]
+fn c36_three_files_middle_lacks_any_classified_type() {
+    let t: u32 = kani::any();
+    let c = class_code(t);
+    kani::assume(c < 3);
+    let d0: u32 = kani::any();
+    let d2: u32 = kani::any();
+    let out = three_files(&[(t, d0)], &[], &[(t, d2)]);
+    check_single(&out, t, expect_two(c, Some(d0), None, d0 & d2, d0 | d2));
+}
+
+#[kani::proof]
+#[kani::unwind(5)]
+fn c36_two_files_one_prop_each_any_two_classified_types() {
+    let t0: u32 = kani::any();
+    let t1: u32 = kani::any();
+    let c0 = class_code(t0);
+    let c1 = class_code(t1);
+    kani::assume(c0 < 3 && c1 < 3);
+    let d0: u32 = kani::any();
+    let d1: u32 = kani::any();
+    let out = two_files(&[(t0, d0)], &[(t1, d1)]);
+    if t0 == t1 {
+        check_single(&out, t0, expect_two(c0, Some(d0), Some(d1), d0 & d1, d0 | d1));
+    } else {
+        // each type is absent from one input: only a non-zero OR-class value survives
+        let e0 = c0 == 1 && d0 != 0;
+        let e1 = c1 == 1 && d1 != 0;
+        assert!(out.len() == e0 as usize + e1 as usize, "wrong number of merged properties");
+        if e0 && e1 {
+            let (lo, lo_d, hi, hi_d) = if t0 < t1 { (t0, d0, t1, d1) } else { (t1, d1, t0, d0) };
+            assert!(out[0].ptype == lo && out[0].data == lo_d && out[1].ptype == hi && out[1].data == hi_d,
+                "merged values wrong or output not sorted by type");
+        } else if e0 {
+            assert!(out[0].ptype == t0 && out[0].data == d0, "merged GNU property differs from GNU ld's AND/OR rule");
+        } else if e1 {
+            assert!(out[0].ptype == t1 && out[0].data == d1, "merged GNU property differs from GNU ld's AND/OR rule");
+        }
+    }
+}
